@@ -69,10 +69,14 @@ def make_fakes():
         def __init__(self):
             super().__init__()
             self.batches = []
+            self.fail_on = set()  # numbers of the invocations that raise
 
         def _run(self, pubs):
             with self.lock:
                 self.batches.append(list(pubs))
+                no = len(self.batches) - 1
+            if no in self.fail_on:
+                raise RuntimeError(f"injected fault in invocation {no}")
             res = super()._run(pubs)
             out = []
             for pub, r in zip(pubs, res):
@@ -83,10 +87,14 @@ def make_fakes():
         def __init__(self):
             super().__init__(SHOTS)
             self.batches = []
+            self.fail_on = set()
 
         def _run(self, pubs):
             with self.lock:
                 self.batches.append(list(pubs))
+                no = len(self.batches) - 1
+            if no in self.fail_on:
+                raise RuntimeError(f"injected fault in invocation {no}")
             res = super()._run(pubs)
             out = []
             for pub, r in zip(pubs, res):
@@ -234,6 +242,85 @@ def diag_of(op, bits):
                 sign = -sign
         tot += sign * float(np.real(c))
     return tot
+
+
+def expected(kind, op, table, alpha, init, qc, p, nq):
+    """(objective of initial state + bound circuit, tolerance = resolution of the fake primitive)"""
+    from qiskit.quantum_info import Statevector
+
+    if kind == "estimator":
+        return float(np.real(Statevector(compose(init, qc, p)).expectation_value(op))), 1e-9
+    probs = ideal_probs(init, qc, p)
+    f = (lambda b: diag_of(op, b)) if kind == "operator_sampler" else (lambda b: table[b])
+    pairs = [(pr, f(b)) for b, pr in probs.items()]
+    maxf = max(abs(f(format(j, f"0{nq}b"))) for j in range(2**nq))
+    return cvar(pairs, alpha), 2 * (2**nq) * maxf / (alpha * SHOTS) + 4 * (1e-8 + 1e-5 * alpha) * maxf / alpha + 1e-9
+
+
+def fault_case(ctx, rng, kind, stack):
+    """a fault of the wrapped primitive during one evaluation must not disturb later evaluations through the same wrapper stack"""
+    from queasars.circuit_evaluation.bitstring_evaluation import BitstringEvaluator
+    from queasars.circuit_evaluation.circuit_evaluation import BitstringCircuitEvaluator, OperatorCircuitEvaluator, OperatorSamplerCircuitEvaluator
+
+    RecEstimator, RecSampler = make_fakes()
+    nq = rng.randint(2, 3)
+    init = gen_init(rng, nq, False)
+    is_sampler = kind != "estimator"
+    prim = RecSampler() if is_sampler else RecEstimator()
+    fail_round = rng.choice([0, 1, 1])
+    wrapped = build_stack(rng, nq, stack, prim, is_sampler)
+    alpha, table, op = 1.0, None, None
+    if kind == "estimator":
+        op = gen_pauli_op(rng, nq, diagonal=False)
+        ev = OperatorCircuitEvaluator(wrapped, None, op, init)
+    elif kind == "operator_sampler":
+        op = gen_pauli_op(rng, nq, diagonal=True)
+        alpha = rng.choice([1.0, 0.5])
+        ev = OperatorSamplerCircuitEvaluator(wrapped, SHOTS, op, alpha, init)
+    else:
+        table = {format(i, f"0{nq}b"): rng.randint(-8, 8) / 2 for i in range(2**nq)}
+        ev = BitstringCircuitEvaluator(wrapped, SHOTS, BitstringEvaluator(nq, lambda b: table[b]), alpha, init)
+    rounds = []
+    for _ in range(3):
+        cs = [gen_circuit(rng, nq, False) for _ in range(rng.randint(1, 3))]
+        rounds.append(([c for c, _ in cs], [p for _, p in cs]))
+    inp = {"kind": kind, "stack": stack, "fault_in_round": fail_round, "n_qubits": nq, "rounds": [len(r[0]) for r in rounds], "init": init is not None,
+           "op": None if op is None else op_terms(op, nq), "alpha": alpha}
+    ctx.case(inp, nontrivial=True, tags=["fault-then-evaluate", "kind:" + kind, "stack:" + stack])
+    for r, (cs, ps) in enumerate(rounds):
+        if r == fail_round:
+            prim.fail_on = {len(prim.batches)}
+        box = {}
+
+        def call():
+            try:
+                box["v"] = ev.evaluate_circuits(cs, ps)
+            except Exception as e:  # noqa: BLE001
+                box["e"] = repr(e)[:120]
+
+        t = threading.Thread(target=call, daemon=True)
+        t.start()
+        t.join(30)
+        prim.fail_on = set()
+        if t.is_alive():
+            ctx.violate("an evaluation through the wrapper stack did not return (after a fault of the wrapped primitive)", inp, {"round": r}, key=f"fault:hang:{kind}")
+            return
+        if r == fail_round:
+            if "v" in box:
+                ctx.violate("an evaluation whose primitive call failed returned values instead of raising", inp, {"round": r}, key=f"fault:swallowed:{kind}")
+            continue
+        if "e" in box:
+            ctx.violate("an evaluation raised although the wrapped primitive did not fail in it", inp, {"round": r, "error": box["e"]}, key=f"fault:later-raise:{kind}")
+            continue
+        got = [float(np.real(v)) for v in box["v"]]
+        if len(got) != len(cs):
+            ctx.violate("an evaluator returned a different number of values than circuits", inp, {"round": r}, key=f"fault:len:{kind}")
+            continue
+        for i, (qc, p) in enumerate(zip(cs, ps)):
+            want, tol = expected(kind, op, table, alpha, init, qc, p, nq)
+            if abs(got[i] - want) > tol:
+                ctx.violate("after a fault of the wrapped primitive an evaluator's value differs from the objective of its own circuit", inp,
+                            {"round": r, "position": i, "got": got[i], "expected": want}, key=f"fault:value:{kind}")
 
 
 # ------------------------------------------------------------------------------------------------ one case
@@ -481,6 +568,13 @@ def run(ctx):
         if ctx.out_of_time():
             break
         batching_slices(ctx, rng)
+    for i in range(ctx.n(9, 120)):
+        if ctx.out_of_time():
+            break
+        fault_case(ctx, rng, kinds[i % 3], ["batching", "T:level0+batching", "mutex", "T:routing+batching"][i % 4])
+    import wrapper_corr
+
+    wrapper_corr.run_wrapper_level(ctx, "C03", 10, 150)
 
 
 def replay(ctx, case):
